@@ -1,6 +1,7 @@
 import Std.Data.HashSet
 import RedisGoModel.Raft.RHDriverLemmas
 import RedisGoModel.Raft.RQ
+import RedisGoModel.Raft.RQJoint
 /-! Lock-step driver for C15 (run interpreted: `lake env lean --run RaftDriver.lean < trace`; the Raft model imports
     Mathlib, so it is not linked into the compiled `driver`).
 
@@ -18,7 +19,14 @@ import RedisGoModel.Raft.RQ
     knows a leader; receiving one is `prop v`).
 
     `Q`/`V` lines: Stage A — etcd's `MajorityConfig.CommittedIndex` / `VoteResult` on random inputs against
-    `RS.committedIndex`, `RS.qidx`, `RS.wonVotes`, `RS.lostVotes`. -/
+    `RS.committedIndex`, `RS.qidx`, `RS.wonVotes`, `RS.lostVotes`.
+
+    `JQ`/`JV`/`CI`/`CC` lines: Stage D, first step (written by `harness raftsim -stageD`, see harness/quorum.go) — etcd's
+    `quorum.JointConfig.CommittedIndex` / `VoteResult` on random joint configs and partial ack/vote maps against
+    `RQJ.JointConfig.committedIndex` / `voteResult`, and sequences of `confchange.Changer` operations (`Simple`, `EnterJoint`,
+    `LeaveJoint`, started by `Restore` or an empty tracker) against `RQJ.simple` / `enterJoint` / `leaveJoint` / `restore`:
+    ok/err must agree, and after every operation the tracker's `Config` AND its `ProgressMap` (ids, `IsLearner`) must equal
+    the model's config and the progress map derived from it (`RQJ.hasProgress`, `RQJ.isLearnerPr`). -/
 open RS
 
 namespace RaftDriver
@@ -271,6 +279,8 @@ structure Tot where
   msgsChecked : Nat := 0
   kinds : Std.HashMap String Nat := {}
   qa : Nat := 0
+  qd : Nat := 0
+  conf : RQJ.Config := RQJ.Config.empty   -- Stage D: the model's tracker config of the current Changer sequence
   firstBadEvent : Option Nat := none   -- event number (within its schedule) of the first mismatch
   evInSched : Nat := 0
 
@@ -314,6 +324,118 @@ def stageAV (n votes res : String) : List String :=
     if m ≠ res then [s!"VoteResult: model={m} impl={res}"] else []
   | _, _ => ["bad V line"]
 
+/-! ### Stage D: quorum + confchange (model: `RQJoint.lean`, theorems: `Props/C15Conf.lean`) -/
+
+def idList? (s : String) : Option (List Nat) :=
+  if s == "-" then some [] else (s.splitOn ",").mapM String.toNat?
+
+def idSet? (s : String) : Option (Finset Nat) := (idList? s).map fun l => l.toFinset
+
+/-- `id:value,...` -/
+def pairs? (s : String) : Option (List (Nat × Nat)) :=
+  if s == "-" then some [] else
+  (s.splitOn ",").mapM fun f =>
+    match f.splitOn ":" with
+    | [a, b] => match a.toNat?, b.toNat? with
+      | some a, some b => some (a, b)
+      | _, _ => none
+    | _ => none
+
+def lookupPairs (ps : List (Nat × Nat)) (id : Nat) : Option Nat := (ps.find? fun p => p.1 == id).map (·.2)
+
+def idsStr (s : Finset Nat) : String :=
+  let l := s.sort (· ≤ ·)
+  if l.isEmpty then "-" else String.intercalate "," (l.map toString)
+
+def idxStr : RQJ.Idx → String | none => "inf" | some v => toString v
+
+def vrStr : RQJ.VoteResult → String | .won => "won" | .lost => "lost" | .pending => "pending"
+
+/-- the canonical rendering of harness/quorum.go `fmtTrackerCfg`; the last field is the DERIVED progress map -/
+def cfgStr (c : RQJ.Config) : String :=
+  let all := ((c.voters ∪ c.outgoing ∪ c.learners ∪ c.learnersNext).filter fun id => RQJ.hasProgress c id).sort (· ≤ ·)
+  let prs := if all.isEmpty then "-" else
+    String.intercalate "," (all.map fun id => toString id ++ (if RQJ.isLearnerPr c id then "l" else ""))
+  s!"{idsStr c.voters} {idsStr c.outgoing} {idsStr c.learners} {idsStr c.learnersNext} {if c.autoLeave then "1" else "0"} {prs}"
+
+/-- the implementation's config of a `CI`/`CC` line (to resynchronise after a mismatch) -/
+def parseCfg (v0 v1 l ln al : String) : Option RQJ.Config := do
+  return ⟨← idSet? v0, ← idSet? v1, ← idSet? l, ← idSet? ln, ← bool? al⟩
+
+def parseChanges (s : String) : Option (List RQJ.Change) :=
+  if s == "-" then some [] else
+  (s.splitOn ",").mapM fun f =>
+    let t := match (f.take 1).toString with
+      | "a" => some RQJ.ChangeType.addNode | "l" => some .addLearnerNode | "r" => some .removeNode
+      | "u" => some .updateNode | "x" => some .other | _ => none
+    match t, (f.drop 1).toString.toNat? with
+    | some t, some id => some ⟨t, id⟩
+    | _, _ => none
+
+def stageDJQ (a b acks res : String) : List String :=
+  match idSet? a, idSet? b, pairs? acks with
+  | some c0, some c1, some ps =>
+    let m := idxStr (RQJ.JointConfig.committedIndex ⟨c0, c1⟩ (lookupPairs ps))
+    if m ≠ res then [s!"JointCommittedIndex: model={m} impl={res}"] else []
+  | _, _, _ => ["bad JQ line"]
+
+def stageDJV (a b votes res : String) : List String :=
+  match idSet? a, idSet? b, pairs? votes with
+  | some c0, some c1, some ps =>
+    let m := vrStr (RQJ.JointConfig.voteResult ⟨c0, c1⟩ (fun id => (lookupPairs ps id).map (· != 0)))
+    if m ≠ res then [s!"JointVoteResult: model={m} impl={res}"] else []
+  | _, _, _ => ["bad JV line"]
+
+/-- compare one Changer outcome; returns the config to continue from, the errors and the evidence counters -/
+def changerOutcome (what : String) (cur : RQJ.Config) (r : Except String RQJ.Config) (onErr : RQJ.Config)
+    (st : String) (implCfg : List String) : RQJ.Config × List String × List String :=
+  let impl := String.intercalate " " implCfg
+  let (next, ms) := match r with
+    | .ok c => (c, "ok")
+    | .error _ => (onErr, "err")
+  let errs :=
+    (if ms ≠ st then [s!"{what}: model={ms}{match r with | .error e => " (" ++ e ++ ")" | .ok _ => ""} impl={st}"] else []) ++
+    (if cfgStr next ≠ impl then [s!"{what}: config model=[{cfgStr next}] impl=[{impl}]"] else [])
+  let next' := if errs.isEmpty then next else
+    match implCfg with
+    | [v0, v1, l, ln, al, _] => (parseCfg v0 v1 l ln al).getD cur
+    | _ => cur
+  (next', errs, [s!"d:{what}/{st}", if RQJ.joint next' then "d:state-after/joint" else
+                   if next'.voters = ∅ then "d:state-after/empty" else "d:state-after/non-joint"])
+
+def stageDCI (cur : RQJ.Config) (fs : List String) : RQJ.Config × List String × List String :=
+  match fs with
+  | ["CI", "empty"] => (RQJ.Config.empty, [], ["d:CI/empty"])
+  | ["CI", "restore", v, l, vo, ln, al, st, c0, c1, c2, c3, c4, c5, _] =>
+    match idList? v, idList? l, idList? vo, idList? ln, bool? al with
+    | some v, some l, some vo, some ln, some al =>
+      changerOutcome ("restore" ++ (if vo.isEmpty then "" else "-joint")) cur (RQJ.restore ⟨v, l, vo, ln, al⟩) RQJ.Config.empty st [c0, c1, c2, c3, c4, c5]
+    | _, _, _, _, _ => (cur, ["bad CI line"], [])
+  | _ => (cur, ["bad CI line"], [])
+
+def stageDCC (cur : RQJ.Config) (fs : List String) : RQJ.Config × List String × List String :=
+  match fs with
+  | ["CC", op, chg, st, c0, c1, c2, c3, c4, c5, _] =>
+    match parseChanges chg with
+    | some ccs =>
+      let r? : Option (Except String RQJ.Config) :=
+        if op == "simple" then some (RQJ.simple cur ccs)
+        else if op == "enter0" then some (RQJ.enterJoint false cur ccs)
+        else if op == "enter1" then some (RQJ.enterJoint true cur ccs)
+        else if op == "leave" then some (RQJ.leaveJoint cur)
+        else none
+      match r? with
+      | some r =>
+        let pre := if RQJ.joint cur then "joint" else "non-joint"
+        let (n, e, k) := changerOutcome (if op == "leave" || op == "simple" then op else "enter") cur r cur st [c0, c1, c2, c3, c4, c5]
+        (n, e, k ++ [s!"d:{op}-on-{pre}/{st}", s!"d:changes/{ccs.length}"] ++
+          (ccs.map fun cc => "d:change/" ++ (if cc.id = 0 then "id0" else match cc.typ with
+            | .addNode => "AddNode" | .addLearnerNode => "AddLearnerNode" | .removeNode => "RemoveNode"
+            | .updateNode => "UpdateNode" | .other => "outside-enum")))
+      | none => (cur, ["bad CC line"], [])
+    | none => (cur, ["bad CC line"], [])
+  | _ => (cur, ["bad CC line"], [])
+
 /-- the existential package: a schedule's driver state for its own cluster size -/
 structure Sched where
   N : Nat
@@ -352,6 +474,24 @@ partial def loop (h : IO.FS.Stream) (tot : Tot) (sc : Sched) : IO Tot := do
     let errs := stageAV n votes res
     if !errs.isEmpty then IO.println s!"MISMATCH {tot.lines} {String.intercalate " ; " errs} :: {line}"
     loop h { tot with qa := tot.qa + 1, bad := tot.bad + (if errs.isEmpty then 0 else 1) } sc
+  | ["JQ", a, b, acks, res] =>
+    let errs := stageDJQ a b acks res
+    if !errs.isEmpty then IO.println s!"MISMATCH {tot.lines} {String.intercalate " ; " errs} :: {line}"
+    loop h { tot.bump "d:JQ" with qd := tot.qd + 1, bad := tot.bad + (if errs.isEmpty then 0 else 1) } sc
+  | ["JV", a, b, votes, res] =>
+    let errs := stageDJV a b votes res
+    if !errs.isEmpty then IO.println s!"MISMATCH {tot.lines} {String.intercalate " ; " errs} :: {line}"
+    loop h { (tot.bump "d:JV").bump ("d:JV/" ++ res) with qd := tot.qd + 1, bad := tot.bad + (if errs.isEmpty then 0 else 1) } sc
+  | "CI" :: _ =>
+    let (c, errs, ks) := stageDCI tot.conf fs
+    if !errs.isEmpty then IO.println s!"MISMATCH {tot.lines} {String.intercalate " ; " errs} :: {line}"
+    let tot := ks.foldl Tot.bump tot
+    loop h { tot with qd := tot.qd + 1, conf := c, bad := tot.bad + (if errs.isEmpty then 0 else 1) } sc
+  | "CC" :: _ =>
+    let (c, errs, ks) := stageDCC tot.conf fs
+    if !errs.isEmpty then IO.println s!"MISMATCH {tot.lines} {String.intercalate " ; " errs} :: {line}"
+    let tot := ks.foldl Tot.bump tot
+    loop h { tot with qd := tot.qd + 1, conf := c, bad := tot.bad + (if errs.isEmpty then 0 else 1) } sc
   | "SAFETY-VIOLATION" :: _ =>
     IO.println s!"MISMATCH {tot.lines} impl-safety :: {line}"
     loop h { tot with bad := tot.bad + 1 } sc
@@ -366,5 +506,5 @@ def main : IO UInt32 := do
   let ks := tot.kinds.toList.toArray.qsort (fun a b => a.1 < b.1)
   let kstr := String.intercalate " " (ks.toList.map fun (k, v) => s!"{k}={v}")
   let fb := match tot.firstBadEvent with | some e => toString e | none => "-"
-  IO.println s!"SUMMARY lines={tot.lines} mismatches={tot.bad} schedules={tot.schedules} events={tot.events} calls={tot.calls} messages={tot.msgsChecked} stageA={tot.qa} first-bad-event={fb} {kstr}"
+  IO.println s!"SUMMARY lines={tot.lines} mismatches={tot.bad} schedules={tot.schedules} events={tot.events} calls={tot.calls} messages={tot.msgsChecked} stageA={tot.qa} stageD={tot.qd} first-bad-event={fb} {kstr}"
   return (if tot.bad == 0 then 0 else 1)
